@@ -20,8 +20,8 @@ RULE = (
     "Histories over the operations {open(use_cache, create_cache, rpc in {1, N, N+1, default}, "
     "options dict plain / with nested storage_options / absent), cli-create(adjacent | user dir, "
     "rpc), delete local cache, delete adjacent cache, tear (truncate) the index files of one location, reload an earlier returned tree}. Quick: a "
-    "Hypothesis RuleBasedStateMachine (60 machines x <= 12 steps) plus all histories of length "
-    "<= 2 over a 13-operation alphabet; thorough: breadth-first enumeration of ALL histories up "
+    "Hypothesis RuleBasedStateMachine (120 machines x <= 12 steps) plus all histories of length "
+    "<= 2 over a 13-operation alphabet and all 96 'produce a cache, disturb it, open' triples; thorough: breadth-first enumeration of ALL histories up "
     "to length 4 over that alphabet (30940 per product) for a level-1.1 ScanSAR-like product (image files differ only in the scan suffix) and a level-1.5 product. "
     "Invariants after every step: the returned tree equals the uncached reference for this "
     "step's rpc; the product directory (listing + sha256) is unchanged except index files made "
